@@ -5,6 +5,7 @@
   host bits, and patterns are inside the fragment the driver's regex engine implements.
 -/
 import Rbgp.Policy.Model
+import Rbgp.Policy.DModel
 import Rbgp.Policy.Regex
 namespace Rbgp.Policy.Wf
 open Rbgp.Policy
@@ -32,7 +33,10 @@ def wfAttr (a : Attr) : Bool :=
    | 4, .val v => v < 4294967296
    | 5, .val v => v < 4294967296
    | 9, .val v => v < 4294967296
-   | 2, .bin b => (segsOf b).isSome
+   | 2, .bin b =>
+       (match segsOf b with
+        | some segs => !(segs.any (fun s => s.asns.isEmpty)) || a.flags == 64   -- zero-count segments: API-built
+        | none => false)
    | 6, .bin b => b.isEmpty
    | 8, .bin b => b.length % 4 == 0
    | 10, .bin b => b.length % 4 == 0
@@ -105,4 +109,44 @@ def wfOp : Op → Bool
 
 def wfCase (c : Case) : Bool := c.probes.all wfRoute && c.ops.all wfOp
 
-end Rbgp.Policy.Wf
+/-! ## daemon-level cases -/
+
+/-- position of a condition in the API message (`conditions_from_api` emits them in this order);
+    `none` = not expressible in the generated messages -/
+def apiCondIdx : CondCfg → Option Nat
+  | .set k _ _ => some (match k with | .prefix => 0 | .neighbor => 1 | .aspath => 2 | .comm => 4 | .ext => 5 | .large => 6)
+  | .plain (.localPrefEq _) => some 9
+  | .plain (.medEq _) => some 10
+  | _ => none
+
+def increasing : List Nat → Bool
+  | a :: b :: r => a < b && increasing (b :: r)
+  | _ => true
+
+def apiStmtOk (conds : List CondCfg) (disp : Option Disp) (a : Actions) : Bool :=
+  (conds.all (fun c => (apiCondIdx c).isSome)) && increasing (conds.filterMap apiCondIdx) &&
+  disp != some .pass &&
+  a.nexthop.isNone && a.community.isNone && a.asPrepend.isNone && a.ext.isNone && a.large.isNone && a.origin.isNone
+
+/-- shape of a `SetPolicies` message: sets, then statements / policies (every statement defined
+    once, before the policies that list it, and listed by some policy), then global assignments -/
+def spShape : Nat → List String → List String → List Op → Bool
+  | _, defined, used, [] => defined.all (fun n => used.contains n)
+  | ph, defined, used, op :: r =>
+      match op with
+      | .setAdd .. => ph == 0 && spShape 0 defined used r
+      | .stmtAdd n c d a => ph ≤ 1 && !defined.contains n && apiStmtOk c d a && spShape 1 (n :: defined) used r
+      | .polAdd _ ss => ph ≤ 1 && ss.all (fun s => defined.contains s) && spShape 1 defined (ss ++ used) r
+      | .asgAdd _ n _ _ => n == "global" && spShape 2 defined used r
+      | _ => false
+
+def distinctAddrs : List Addr → Bool
+  | [] => true
+  | a :: r => !r.contains a && distinctAddrs r
+
+def wfDOp : DOp → Bool
+  | .tbl op => isSetStmtOp op && wfOp op
+  | .setPolicies ops => ops.all wfOp && spShape 0 [] [] ops
+  | _ => true
+
+def wfDCase (c : DCase) : Bool := c.probes.all wfRoute && distinctAddrs c.peers && c.ops.all wfDOp
